@@ -14,8 +14,9 @@ S2  every enumerated case is executed: BinaryCIFData(arr, chain).serialize() -> 
     filled-in parameters against the model's.
     compress() as an operation of its own (MCCompress.tla): float32 / float64 arrays of decimal
     floats of every magnitude class (1e-306 .. 1e300, the int32 boundary of the scaled values on both
-    sides, one-sided overflow, zero, NaN, infinities) x tolerances 1e-1 .. 1e-6, and int32 arrays on
-    the type boundaries of _to_smallest_integer_type; S1 checks that whatever the modelled search for
+    sides, one-sided overflow, zero, NaN, infinities) x tolerances 1e-1 .. 1e-8 (looser and stricter than
+    the default 1e-6), and int32 arrays on the type boundaries of _to_smallest_integer_type, each case called
+    at every container level compress() accepts (data / column / category / block / file); S1 checks that whatever the modelled search for
     the decimals + range check + fall-back may return is inside the relative tolerance; every case is
     executed and judged by TLC (Trace.tla, kinds "compressx" / "compress").
     Memory representations (BcifEncoding.tla "memory representation of the input array"): every enumerated
@@ -274,7 +275,31 @@ def run_chain(A, chain, rep="native"):
     return out
 
 
-def run_compress(A, T, rep="native"):
+LEVELS = ["data", "column", "category", "block", "file"]
+
+
+def compress_at(level, arr, tol):
+    """compress() called on the container of the given level around the array; -> the compressed BinaryCIFData."""
+    import biotite.structure.io.pdbx as px
+
+    data = px.BinaryCIFData(arr)
+    if level == "data":
+        return px.compress(data, float_tolerance=tol)
+    col = px.BinaryCIFColumn(data)
+    if level == "column":
+        return px.compress(col, float_tolerance=tol).data
+    cat = px.BinaryCIFCategory({"x": col})
+    if level == "category":
+        return px.compress(cat, float_tolerance=tol)["x"].data
+    blk = px.BinaryCIFBlock({"c": cat})
+    if level == "block":
+        return px.compress(blk, float_tolerance=tol)["c"]["x"].data
+    if level == "file":
+        return px.compress(px.BinaryCIFFile({"b": blk}), float_tolerance=tol)["b"]["c"]["x"].data
+    raise ValueError(level)
+
+
+def run_compress(A, T, rep="native", level="data"):
     import warnings
     from biotite.structure.io.pdbx import BinaryCIFData, compress
     import biotite.structure.io.pdbx as px
@@ -283,7 +308,7 @@ def run_compress(A, T, rep="native"):
     with warnings.catch_warnings():
         warnings.simplefilter("ignore")
         try:
-            c = compress(BinaryCIFData(to_numpy(A, rep)), float_tolerance=1.0 / T)
+            c = compress_at(level, to_numpy(A, rep), 1.0 / T)
             _ser, d2 = write_read(c)
         except Exception:  # noqa: BLE001
             return out
@@ -355,7 +380,7 @@ def sci_project(arr, A):
     return {"t": 32 if arr.dtype.name == "float32" else 33, "v": out}
 
 
-def run_compress_sci(A, T, rep="native"):
+def run_compress_sci(A, T, rep="native", level="data"):
     """compress(BinaryCIFData(A), 1/T) -> serialize -> deserialize, under a CPU-time limit."""
     import math
     import signal
@@ -372,7 +397,7 @@ def run_compress_sci(A, T, rep="native"):
         try:
             signal.setitimer(signal.ITIMER_VIRTUAL, CPU_LIMIT)
             try:
-                c = compress(BinaryCIFData(arr), float_tolerance=1.0 / T)
+                c = compress_at(level, arr, 1.0 / T)
             finally:
                 signal.setitimer(signal.ITIMER_VIRTUAL, 0)
             d2 = BinaryCIFData.deserialize(c.serialize())
@@ -399,15 +424,15 @@ def run_compress_sci(A, T, rep="native"):
     return out
 
 
-def sci_event(A, T, rep="native"):
-    r = run_compress_sci(A, T, rep)
-    return {"kind": "compressx", "A": A, "T": T, "rep": rep, "oc": r["oc"], "B": r["B"], "packed": r["packed"],
+def sci_event(A, T, rep="native", level="data"):
+    r = run_compress_sci(A, T, rep, level)
+    return {"kind": "compressx", "A": A, "T": T, "rep": rep, "level": level, "oc": r["oc"], "B": r["B"], "packed": r["packed"],
             "hasFP": r["hasFP"], "d": r["d"]}
 
 
-def int_compress_event(A, T, rep="native"):
-    r = run_compress(A, T, rep)
-    return {"kind": "compress", "A": A, "T": T, "rep": rep, "chain": r["chain"], "hasFP": r["hasFP"], "d": r["d"],
+def int_compress_event(A, T, rep="native", level="data"):
+    r = run_compress(A, T, rep, level)
+    return {"kind": "compress", "A": A, "T": T, "rep": rep, "level": level, "chain": r["chain"], "hasFP": r["hasFP"], "d": r["d"],
             "oc": r["oc"], "B": r["B"]}
 
 
@@ -417,12 +442,12 @@ def exec_compress_cases(item):
 
     events = []
     for case in item["cases"]:
-        for rep in case["reps"]:
-            progress({"fam": case["fam"], "A": case["arr"], "T": case["tol"], "rep": rep})
+        for level, rep in case["plan"]:
+            progress({"fam": case["fam"], "A": case["arr"], "T": case["tol"], "rep": rep, "level": level})
             if case["fam"] == "sci":
-                events.append(sci_event(case["arr"], case["tol"], rep))
+                events.append(sci_event(case["arr"], case["tol"], rep, level))
             else:
-                events.append(int_compress_event(case["arr"], case["tol"], rep))
+                events.append(int_compress_event(case["arr"], case["tol"], rep, level))
     return {"events": events}
 
 
@@ -709,10 +734,14 @@ def gen_trace(item):
         if kind == "compressx":
             t = rng.choice([32, 33])
             A = _rand_sci_array(rng, t, max(n, 1) if rng.random() < 0.9 else 2)
-            T = rng.choice([10, 100, 1000, 10000] + ([100000, 1000000] if t == 33 else []))
+            T = rng.choice([10, 100, 1000, 10000] + ([100000, 1000000, 10000000, 100000000] if t == 33 else []))
+            if T > 1000000:          # Dom_SciDeepTol: no values near the bottom of the float range
+                A["v"] = [x if x["k"] != "num" or x["m"] == 0 or 8 + x["p"] >= -290 else {"k": "num", "m": 0, "p": 0}
+                          for x in A["v"]]
             rep = rng.choice(reps_of(A))
-            progress({"kind": kind, "A": A, "T": T, "rep": rep})
-            events.append(sci_event(A, T, rep))
+            level = rng.choice(LEVELS)
+            progress({"kind": kind, "A": A, "T": T, "rep": rep, "level": level})
+            events.append(sci_event(A, T, rep, level))
             continue
         if family == "int" and kind == "compress" and rng.random() < 0.5:
             # arrays on which one of the candidate chains of compress() clearly wins:
@@ -813,8 +842,10 @@ def gen_trace(item):
             if len(A["v"]) == 0:
                 continue                                 # compress() of an empty array is refused (min of nothing)
             rep = rng.choice(reps_of(A))
-            r = run_compress(A, T, rep)
-            events.append({"kind": "compress", "A": A, "T": T, "rep": rep, "chain": r["chain"], "hasFP": r["hasFP"],
+            level = rng.choice(LEVELS)
+            r = run_compress(A, T, rep, level)
+            events.append({"kind": "compress", "A": A, "T": T, "rep": rep, "level": level, "chain": r["chain"],
+                           "hasFP": r["hasFP"],
                            "d": r["d"], "oc": r["oc"], "B": r["B"]})
     return {"events": events}
 
@@ -924,14 +955,14 @@ def replay(record):
         return {"observed": r, "expected": record["expected"],
                 "mismatch": (r["oc"] != exp) or (exp == "ok" and record.get("kind") == "event")}
     if record.get("kind") == "event" and record.get("ekind") == "compress":
-        r = run_compress(record["A"], record["T"], record.get("rep", "native"))
+        r = run_compress(record["A"], record["T"], record.get("rep", "native"), record.get("level", "data"))
         return {"observed": r, "input": record["A"], "mismatch": r["B"] != record["A"]}
     if record.get("kind") == "column":
         r = run_column(record["col"], record["hist"])
         return {"observed": r, "expected": record["expected"],
                 "mismatch": r["mem"] != record["expected"] or r["file"] != record["expected"]}
     if record.get("kind") == "event" and record.get("ekind") == "compressx":
-        r = run_compress_sci(record["A"], record["T"], record.get("rep", "native"))
+        r = run_compress_sci(record["A"], record["T"], record.get("rep", "native"), record.get("level", "data"))
         return {"observed": r, "input": record["A"], "recorded": {k: record.get(k) for k in ("oc", "B", "packed")},
                 "mismatch": r["oc"] != "ok" or r["packed"] != "ok" or r["B"] == record.get("B")}
     return {"error": "record kind not replayable", "record": record}
@@ -960,7 +991,9 @@ def run(ctx):
         "from the returned object",
         "compress() on floats of any magnitude: decimal floats m*10^p with a nine-digit mantissa that is not within "
         "0.1 % of a power of ten, normal numbers of the float type below 10^(MaxDec-1) (MaxDec = 38 / 308), zero, NaN, "
-        "infinities; tolerances 1/T with 2 <= T <= 1e6 (float32: 1e4); decoded values are compared in units of 10^p "
+        "infinities; tolerances 1/T with 2 <= T <= 1e8 (float32: 1e4; above 1e6 only on values >= 1e-282); compress() called "
+        "on the data, a column, a category, a block or a file holding the array (the tolerance clause is the same); "
+        "decoded values are compared in units of 10^p "
         "with two units of slack (float32: plus 2^-20 relative); arrays on which float rounding noise could decide "
         "the search for the decimals differently from decimal arithmetic (Dom_SciDecisive) are skipped and counted; "
         "a call that uses more than 0.5 s of CPU time (an ordinary call: < 10 ms) is recorded as 'Diverges'",
@@ -1091,21 +1124,33 @@ def run(ctx):
     ctx.cov["compress_model_classes"] = classes
     if min(classes.values()) == 0:
         raise Vacuity(f"MCCompress: a class of the float branch is not enumerated: {classes}")
-    # memory representations: the native one and two more of the case's reps, drawn with the seed (every
-    # representation is drawn hundreds of times; all of them for every case would triple the events TLC judges)
-    ccases = [{k: s[k] for k in ("fam", "arr", "tol", "reps")} for s in cdone]
+    # every case is executed at every container level compress() accepts (levels); memory representations: the
+    # native one at the data level, at the other levels representations drawn with the seed (all of them for every
+    # level would multiply the events TLC judges by forty; every representation is drawn hundreds of times)
+    ccases = [{k: s[k] for k in ("fam", "arr", "tol", "reps", "levels")} for s in cdone]
+    crep, clev = {}, {}
     for c in ccases:
-        if "native" not in c["reps"]:
-            raise Vacuity("MCCompress: a case without the native representation")
+        if "native" not in c["reps"] or set(c["levels"]) != set(LEVELS):
+            raise Vacuity("MCCompress: a case without the native representation / without all levels")
         others = [r for r in c["reps"] if r != "native"]
-        c["reps"] = ["native"] + sorted(ctx.rng.sample(others, 2))
-    crep = {}
-    for c in ccases:
-        for r in c["reps"]:
-            crep[r] = crep.get(r, 0) + 1
+        # thorough (twenty times the cases): the data level and two more levels drawn with the seed
+        lvs = LEVELS if quick else ["data"] + sorted(ctx.rng.sample(LEVELS[1:], 2), key=LEVELS.index)
+        drawn = ctx.rng.sample(others, len(lvs) - 1)
+        c["plan"] = [[lv, rp] for lv, rp in zip(lvs, ["native"] + drawn)]
+        for lv, rp in c["plan"]:
+            crep[rp] = crep.get(rp, 0) + 1
+            clev[lv] = clev.get(lv, 0) + 1
     ctx.cov["s2_compress_executions_per_representation"] = crep
-    if not ALL_REPS <= set(crep):
-        raise Vacuity(f"S2 compress: memory representations not all executed: {crep}")
+    ctx.cov["s2_compress_executions_per_level"] = clev
+    ctx.cov["s2_compress_cases_per_tolerance"] = {str(t): sum(1 for c in ccases if c["fam"] == "sci" and c["tol"] == t)
+                                                  for t in sorted({c["tol"] for c in ccases})}
+    if not ALL_REPS <= set(crep) or set(clev) != set(LEVELS):
+        raise Vacuity(f"S2 compress: memory representations / levels not all executed: {crep} {clev}")
+    # tolerances on both sides of the default of compress() (1e-6): a call that does not use the tolerance it was
+    # given differs from the specification only on the stricter side
+    if not any(c["tol"] > 1000000 for c in ccases if c["fam"] == "sci") or not any(
+            c["tol"] < 1000000 for c in ccases if c["fam"] == "sci"):
+        raise Vacuity("MCCompress: tolerances stricter and looser than the default are not both enumerated")
     ctx.rng.shuffle(ccases)
     citems = [{"cases": c} for c in helpers.chunked(ccases, 40)]
     s2traces = []
@@ -1115,7 +1160,7 @@ def run(ctx):
         if "crash" in r:
             ctx.mismatch({"stage": "S2", "kind": "crash", "signal": r["crash"], "progress": r.get("progress"),
                           "item": it})
-        elif len(r["events"]) != sum(len(c["reps"]) for c in it["cases"]):
+        elif len(r["events"]) != sum(len(c["plan"]) for c in it["cases"]):
             raise RuntimeError("S2 compress: an enumerated case was not executed")
         else:
             s2traces.append(r["events"])
@@ -1249,7 +1294,7 @@ def run(ctx):
         e = traces[tid - 1][l - 1]
         rec = {"stage": "S2" if tid <= n_s2 else "S3", "kind": "event", "ekind": e["kind"],
                "tlc_known": verdict == "known", "kb": kb, "expected": {"oc": exp}, "trace": tid, "event": l}
-        for k in ("A", "chain", "T", "rep", "B", "oc", "cin", "reps", "hist", "cout", "eq", "hist2", "cout2", "eq2",
+        for k in ("A", "chain", "T", "rep", "level", "B", "oc", "cin", "reps", "hist", "cout", "eq", "hist2", "cout2", "eq2",
                   "hasFP", "d", "packed"):
             if k in e:
                 rec[k] = e[k]
@@ -1305,6 +1350,6 @@ def run(ctx):
 
 MANIFEST = {
     "technique": "TLA+ specification of the seven BinaryCIF encodings, their chains, BinaryCIFData serialisation and the candidate chains of compress() (specs/C05) model-checked by TLC; every enumerated (chain, array) case executed through BinaryCIFData.serialize -> msgpack -> deserialize; every case under every memory representation of its array; columns with masks under enumerated histories of read accesses; recorded random arrays, chains, compress() calls and files with access histories re-computed by TLC",
-    "level_text": "TLC enumerates integer arrays of every 8/16-bit type over their boundary values (length <=2, thorough 3, plus runs) and 32-bit arrays, float32/float64 arrays over dyadic values, NaN, infinities and large integers, and string arrays with empty and duplicate strings, each under the twelve chains compress() tries and explicit-parameter variants (narrow target types, wrong sizes, unsigned packing of negatives, given origins, fixed point with 4 factors, interval quantisation with 3 grids, string arrays with nested chains), and checks that the code-shaped model returns the array exactly / within half a fixed-point step / within the documented quantisation bin whenever the representation can hold it and refuses it otherwise, except in the two recorded classes; every case is then executed against the real encoders through msgpack and compared with the specification's outcome and acceptance interval. compress() is also enumerated as an operation: float32/float64 arrays (length <=2, thorough 3, optionally with a repeated tail) over decimal floats of every magnitude class from 1e-306 to 1e300 (more than 15 decimals, fractions, coordinates, the int32 boundary of the scaled values on both sides, one-sided overflow, zero, NaN, infinities) x tolerances 1e-1..1e-6 and int32 arrays on the integer type boundaries; TLC checks that the modelled search for the decimals + int32 range check + lossless fall-back stays inside the relative tolerance, every case is executed through compress -> serialize -> (msgpack) -> deserialize and judged by TLC. Every enumerated case is executed under every memory representation the specification lists for its array (native, non-native byte order, strided, reversed, read-only, unaligned, all at once, 64-bit carrier, Python list), with one expectation; TLC checks that the code-shaped first encoding step does not depend on it outside one recorded class. Columns (int8/int32/float32/float64/string, 1-2 rows, every class of mask) are enumerated with every history of at most two read accesses (as_array with five dtype choices with/without masked_value, as_item, serialize, compress, write): TLC checks that the code-shaped accessors never change the column, the driver performs the history and compares the column in memory and the column read back from a written file with the specification's. Random arrays up to 60 elements of all dtypes in random representations with random chains and parameters, compress() with tolerances 1e-1..1e-6 (fixed-point universe and decimal floats of any magnitude) and whole files with masks (random read accesses before writing, and on the file read back before writing it again) are recorded and re-computed by TLC.",
+    "level_text": "TLC enumerates integer arrays of every 8/16-bit type over their boundary values (length <=2, thorough 3, plus runs) and 32-bit arrays, float32/float64 arrays over dyadic values, NaN, infinities and large integers, and string arrays with empty and duplicate strings, each under the twelve chains compress() tries and explicit-parameter variants (narrow target types, wrong sizes, unsigned packing of negatives, given origins, fixed point with 4 factors, interval quantisation with 3 grids, string arrays with nested chains), and checks that the code-shaped model returns the array exactly / within half a fixed-point step / within the documented quantisation bin whenever the representation can hold it and refuses it otherwise, except in the two recorded classes; every case is then executed against the real encoders through msgpack and compared with the specification's outcome and acceptance interval. compress() is also enumerated as an operation: float32/float64 arrays (length <=2, thorough 3, optionally with a repeated tail) over decimal floats of every magnitude class from 1e-306 to 1e300 (more than 15 decimals, fractions, coordinates, the int32 boundary of the scaled values on both sides, one-sided overflow, zero, NaN, infinities, nine significant digits) x tolerances 1e-1..1e-8 (looser than, equal to and stricter than the default of compress()) and int32 arrays on the integer type boundaries, each case called at every container level (data, column, category, block, file); TLC checks that the modelled search for the decimals + int32 range check + lossless fall-back stays inside the relative tolerance, every case is executed through compress -> serialize -> (msgpack) -> deserialize and judged by TLC. Every enumerated case is executed under every memory representation the specification lists for its array (native, non-native byte order, strided, reversed, read-only, unaligned, all at once, 64-bit carrier, Python list), with one expectation; TLC checks that the code-shaped first encoding step does not depend on it outside one recorded class. Columns (int8/int32/float32/float64/string, 1-2 rows, every class of mask) are enumerated with every history of at most two read accesses (as_array with five dtype choices with/without masked_value, as_item, serialize, compress, write): TLC checks that the code-shaped accessors never change the column, the driver performs the history and compares the column in memory and the column read back from a written file with the specification's. Random arrays up to 60 elements of all dtypes in random representations with random chains and parameters, compress() at random container levels with tolerances 1e-1..1e-8 (fixed-point universe and decimal floats of any magnitude) and whole files with masks (random read accesses before writing, and on the file read back before writing it again) are recorded and re-computed by TLC.",
     "level_note": "Bounded: exhaustive only for arrays of <=2 (thorough 3) elements over boundary value sets; longer arrays only through recorded runs. Floats are restricted to dyadic values on which float arithmetic is exact (plus NaN/inf/large integers); fixed-point factors <=1000. Delta / IntegerPacking arithmetic crossing +-2^31, UINT32 values >= 2^31 and int64 input are not decided (TLC integers are 32 bit). The encoded byte form is compared with the model as a diagnostic only. Histories longer than 2 (thorough 3) accesses and columns longer than 2 (3) rows only through recorded runs; the values an accessor returns are not judged. Recorded defects (unchecked float->int32 cast in FixedPoint, IntervalQuantization outside [min,max], Delta on a uint64 array with an element below the origin; all in encoding.pyx) are accepted only in their predicted shape; the four defects of compress() (unchecked cast reached through compress(), endless search for the decimals beyond the float range, factor 10^d >= 2^64 not serialisable, float32 range check at 2^31) are repaired in /repo, their predicates are FALSE and the situations they occurred in are still required to be enumerated. compress() of floats is judged on decimal floats where float rounding noise cannot change the number of decimals chosen (other arrays are skipped, counted); which of fixed point / raw bytes compress() picks is not modelled. Trusted: TLC, the TLA+ value parser, the float<->fixed-point projection, numpy, msgpack.",
 }
